@@ -42,6 +42,9 @@ Inductive mtp :=
 | M_AIP2RFC19      (* didcomm/aip2;env=rfc19 *)
 | M_AIP1           (* didcomm/aip1 *)
 | M_Indy           (* IndyAgent *)
+| M_V1Enc          (* application/didcomm-enc-env: middle priority in the dispatcher; the packager has no packer for
+                      it and falls back to the framework's primary packer — a configuration matter outside this model
+                      (family = None); it takes part in the selection *)
 | M_V2EncV1Plain   (* application/didcomm-encrypted+json;cty=application/json;flavor=didcomm-msg *)
 | M_AIP2RFC587     (* didcomm/aip2;env=rfc587 *)
 | M_V2Enc          (* application/didcomm-encrypted+json *)
@@ -53,7 +56,7 @@ Inductive tier := TLow | TMid | TTop | TNone.
 Definition tier_of (m : mtp) : tier :=
   match m with
   | M_V1Plain | M_RFC19 | M_AIP2RFC19 | M_AIP1 | M_Indy => TLow
-  | M_V2EncV1Plain | M_AIP2RFC587 => TMid
+  | M_V1Enc | M_V2EncV1Plain | M_AIP2RFC587 => TMid
   | M_V2Enc | M_V2Plain | M_DIDCommV2 => TTop
   | M_Other => TNone
   end.
@@ -81,7 +84,7 @@ Definition family (m : mtp) : option profile :=
   | M_RFC19 | M_AIP2RFC19 | M_AIP1 => Some PLegacy
   | M_V1Plain => Some PJweV1
   | M_V2EncV1Plain | M_AIP2RFC587 | M_V2Enc | M_V2Plain | M_DIDCommV2 => Some PV2
-  | M_Other => None
+  | M_V1Enc | M_Other => None
   end.
 Definition cfg_of (pf : profile) (auth : bool) (kt : ktype) (e : encalg) (st : kstyle) : cfg :=
   mkcfg (match legacy_prof pf, auth with
